@@ -125,13 +125,20 @@ def wrappers(case):
                 ExecutionStrategy(resources=Resources({Resource(name="CPU", _id="any"): 2}), batch_size=1,
                                   runtime=EventTime(max(wt.get(k, 1) - 1, 0), EventTime.Unit.US)),
             ]))
-    jobs = {k: Job(name=nm(k), profile=profile(k)) for k in order}
+    p0 = set(case.get("p0", []))
+    slo = {int(k): v for k, v in case.get("slo", [])}
+    jobs = {k: Job(name=nm(k), profile=profile(k), probability=0.0 if k in p0 else 1.0,
+                   slo=EventTime(slo[k], EventTime.Unit.US) if k in slo else EventTime.invalid()) for k in order}
     out = {}
     try:
         jg = JobGraph(name="JG", jobs={jobs[n]: [jobs[c] for c in cs] for n, cs in case["map"]})
         out["job_cp"] = res(lambda: jg.critical_path_runtime.to(EventTime.Unit.US).time, int)
         out["job_ct"] = res(lambda: jg.completion_time.to(EventTime.Unit.US).time, int)
         out["job_bfs"] = gen(lambda: (j.name for j in jg.breadth_first()))
+        import sys as _sys
+        out["job_path"] = res(lambda: jg.get_longest_path(
+            weights=lambda job: (job.execution_strategies.get_slowest_strategy().runtime.to(EventTime.Unit.US).time
+                                 if job.probability > _sys.float_info.epsilon else 0)), lambda l: [un(j.name) for j in l])
         out["job_sources"] = [un(j.name) for j in jg.get_sources()]
     except Exception as e:  # noqa: BLE001
         out["job_error"] = code(e)
@@ -165,6 +172,8 @@ if "remove" in payload:
     result["remove"] = [observe_remove(c) for c in payload["remove"]]
 if "cases" in payload:
     result["obs"] = [observe(c) for c in payload["cases"]]
+if "jobgraphs" in payload:
+    result["jobgraphs"] = [wrappers(c) for c in payload["jobgraphs"]]
 if "wrappers" in payload:
     result["wrappers"] = [wrappers(c) for c in payload["wrappers"]]
 implutil.end(result)
